@@ -238,6 +238,8 @@ impl Store {
     #[tracing::instrument(skip(self))]
     pub async fn read(&self, options: ReadOptions) -> tokio::sync::mpsc::Receiver<Frame> {
         let (tx, rx) = tokio::sync::mpsc::channel(100);
+        #[cfg(feature = "verif")]
+        let verif_reader = crate::verif::next_reader();
 
         let should_follow = matches!(
             options.follow,
@@ -252,6 +254,8 @@ impl Store {
         } else {
             None
         };
+        #[cfg(feature = "verif")]
+        crate::verif::sync("read.subscribed", None, verif_reader);
 
         // Only create done channel if we're doing historical processing
         let done_rx = if !options.tail {
@@ -283,12 +287,16 @@ impl Store {
                         }
                     }
 
+                    #[cfg(feature = "verif")]
+                    crate::verif::sync("hist.send", Some(&frame), verif_reader);
                     if tx_clone.blocking_send(frame).is_err() {
                         return;
                     }
                     count += 1;
                 }
 
+                #[cfg(feature = "verif")]
+                crate::verif::sync("hist.end", None, verif_reader);
                 // Send threshold message if following and no limit
                 if should_follow_clone && options.limit.is_none() {
                     let threshold =
@@ -301,6 +309,8 @@ impl Store {
                     }
                 }
 
+                #[cfg(feature = "verif")]
+                crate::verif::sync("hist.done", None, verif_reader);
                 // Signal completion with the last seen ID and count
                 let _ = done_tx.send((last_id, count));
             });
@@ -328,6 +338,8 @@ impl Store {
 
                     let mut broadcast_rx = broadcast_rx;
                     while let Ok(frame) = broadcast_rx.recv().await {
+                        #[cfg(feature = "verif")]
+                        crate::verif::sync("live.recv", Some(&frame), verif_reader);
                         // Skip frames that do not match the context_id
                         if let Some(context_id) = options.context_id {
                             if frame.context_id != context_id {
@@ -367,6 +379,8 @@ impl Store {
                                 .id(scru128::new())
                                 .ttl(TTL::Ephemeral)
                                 .build();
+                        #[cfg(feature = "verif")]
+                        crate::verif::sync("pulse", Some(&frame), verif_reader);
                         if heartbeat_tx.send(frame).await.is_err() {
                             break;
                         }
@@ -530,7 +544,11 @@ impl Store {
     }
 
     pub fn append(&self, mut frame: Frame) -> Result<Frame, crate::error::Error> {
+        #[cfg(feature = "verif")]
+        crate::verif::sync("append.enter", Some(&frame), 0);
         frame.id = scru128::new();
+        #[cfg(feature = "verif")]
+        crate::verif::sync("append.id", Some(&frame), 0);
 
         // Special handling for xs.context registration
         if frame.topic == "xs.context" {
@@ -553,6 +571,8 @@ impl Store {
         // only store the frame if it's not ephemeral
         if frame.ttl != Some(TTL::Ephemeral) {
             self.insert_frame(&frame)?;
+            #[cfg(feature = "verif")]
+            crate::verif::sync("append.commit", Some(&frame), 0);
 
             // If this is a Head TTL, schedule a gc task
             if let Some(TTL::Head(n)) = frame.ttl {
@@ -565,6 +585,8 @@ impl Store {
         }
 
         let _ = self.broadcast_tx.send(frame.clone());
+        #[cfg(feature = "verif")]
+        crate::verif::sync("append.broadcast", Some(&frame), 0);
         Ok(frame)
     }
 
